@@ -319,6 +319,15 @@ def o_gbt(case, T):
             require(p == q, "tile (%d,%d) origin %r, parent pixel maps to %r", r, c, p, q)
             pb = gbt.pix_bbox((r, c))
             require(tuple(pb.bbox) == (ox[c][0], oy[r][0], ox[c][1], oy[r][1]), "pix_bbox(%d,%d)=%r", r, c, pb)
+            # numpy-style spellings of the same tile index (negative, mixed): same tile, same region
+            for ri, ci in ((r - R, c - C), (r, c - C), (r - R, c)):
+                tn = gbt[ri, ci]
+                require(_same_gbox(tn, want), "tile [%d,%d] (= tile (%d,%d) of %dx%d) = %r is not the parent cropped to %r = %r", ri, ci, r, c, R, C, tn, want_roi, want)
+                require(tn.pix2wld(0, 0) == q, "tile [%d,%d] origin %r, tile (%d,%d) starts at %r", ri, ci, tn.pix2wld(0, 0), r, c, q)
+                if case["kind"] == "regular":  # only the regular tiling documents numpy-style indices for tile_shape
+                    require(tuple(gbt.chunk_shape((ri, ci)).yx) == tuple(want.shape), "chunk_shape(%d,%d)", ri, ci)
+                rn = gbt.roi[ri, ci]
+                require((rn[0].start, rn[0].stop, rn[1].start, rn[1].stop) == (*oy[r], *ox[c]), "roi[%d,%d]=%r model %r", ri, ci, rn, want_roi)
     for bad in ((R, 0), (0, C)):
         try:
             gbt[bad]
